@@ -10,19 +10,25 @@ Import ListNotations.
 Local Open Scope nat_scope.
 
 Definition cfg_gen : cfg :=
-  {| catch_emits_pop := gen_catch_emits_pop;
-     break_pops_handlers := gen_break_pops_handlers && gen_continue_pops_handlers;
-     return_uses_jump_finally := gen_return_in_try_uses_jump_finally;
-     he_is_no_catch := gen_he_is_no_catch |}.
+  cfg_flags gen_catch_emits_pop (gen_break_pops_handlers && gen_continue_pops_handlers)
+            gen_return_in_try_uses_jump_finally gen_unwind_he_mode
+            gen_throw_sets_he gen_vmfail_sets_he gen_nativefail_sets_he.
+(* the theorems hold for today's emitters and an unwind_stack that DERIVES handling_exception from the handler,
+   whichever raise sites set the flag first *)
+Local Notation gts := gen_throw_sets_he.
+Local Notation gvs := gen_vmfail_sets_he.
+Local Notation gns := gen_nativefail_sets_he.
+Definition Kg : cfg := cfg_assign gts gvs gns.
 
 (* --- side conditions on the current sources --- *)
-Theorem C08_side_cfg : cfg_gen = cfg_today.
+Theorem C08_side_cfg : cfg_gen = Kg.
 Proof. vm_compute; reflexivity. Qed.
 Theorem C08_side_shapes :
   gen_try_shape_recognised && gen_try_operands_recognised && negb gen_break_runs_finally
   && gen_break_scope_pops_before_jump && gen_unwind_pops_innermost && gen_unwind_truncates_and_jumps_to_catch
   && gen_handler_records_heights && gen_end_finally_rethrows && gen_end_finally_resumes_return
-  && gen_jump_finally_targets_finally && gen_throw_unwinds && gen_push_handler_offsets = true.
+  && gen_jump_finally_targets_finally && gen_throw_unwinds && gen_push_handler_offsets
+  && gen_error_pushed_by_vm_poked_by_native = true.
 Proof. vm_compute; reflexivity. Qed.
 Theorem C08_side_frames : N.to_nat Consts.FRAMES_MAX = Handlers.FRAMES_MAX.
 Proof. vm_compute; reflexivity. Qed.
@@ -31,82 +37,82 @@ Proof. vm_compute; reflexivity. Qed.
 Theorem C08_handlers_refine_spec : forall p fuel res,
   wf_prog p = true -> in_known_class p = None -> fuel <= 63 ->
   eval_spec p fuel = Some res -> exists n, run_m cfg_gen p n = Some res.
-Proof. exact (handlers_refine_spec_cfg cfg_gen C08_side_cfg). Qed.
+Proof. exact (handlers_refine_spec_cfg cfg_gen gts gvs gns C08_side_cfg). Qed.
 
 (* --- statement level (every statement of every function, any machine state satisfying `entered`) --- *)
-Theorem C08_stmt_sim : forall p, wf_prog p = true -> in_known_class p = None -> forall f' s, Sim p f' s.
-Proof. exact stmt_sim. Qed.
+Theorem C08_stmt_sim : forall p, wf_prog p = true -> in_known_class p = None -> forall f' s, Sim gts gvs gns p f' s.
+Proof. exact (stmt_sim gts gvs gns). Qed.
 
 Theorem C08_throw_reaches_innermost :
   forall p, wf_prog p = true -> in_known_class p = None ->
   forall f' s c k pc0 g il ic e stk fr frs h hs rp he d out o v,
-    entered p f' s c k pc0 g il ic e stk fr frs (h :: hs) rp he d ->
+    entered gts gvs gns p f' s c k pc0 g il ic e stk fr frs (h :: hs) rp he d ->
     eval_stmt (eval_fn p f') e s = Some (o, OExc v) ->
     exists frs', skipn (S (length frs) - h_frames h) (fr :: frs) = frs' /\ frs' <> [] /\
-      steps (compile_prog cfg_today p) (inl (mkS g pc0 stk (fr :: frs) (h :: hs) rp he out))
+      steps gts gvs gns (compile_prog Kg p) (inl (mkS g pc0 stk (fr :: frs) (h :: hs) rp he out))
             (inl (mkS (h_fn h) (h_catch h) (firstn (h_height h) stk ++ [v]) frs' hs rp
                       (h_catch h =? h_fin h) (out ++ o))).
-Proof. exact throw_reaches_innermost. Qed.
+Proof. exact (throw_reaches_innermost gts gvs gns). Qed.
 
 Theorem C08_uncaught_names_value :
   forall p, wf_prog p = true -> in_known_class p = None ->
   forall f' s c k pc0 g il ic e stk fr frs rp he d out o v,
-    entered p f' s c k pc0 g il ic e stk fr frs [] rp he d ->
+    entered gts gvs gns p f' s c k pc0 g il ic e stk fr frs [] rp he d ->
     eval_stmt (eval_fn p f') e s = Some (o, OExc v) ->
-    steps (compile_prog cfg_today p) (inl (mkS g pc0 stk (fr :: frs) [] rp he out)) (inr (FUncaught v, out ++ o)).
-Proof. exact uncaught_names_value. Qed.
+    steps gts gvs gns (compile_prog Kg p) (inl (mkS g pc0 stk (fr :: frs) [] rp he out)) (inr (FUncaught v, out ++ o)).
+Proof. exact (uncaught_names_value gts gvs gns). Qed.
 
 Theorem C08_handler_stack_balanced :
   forall p, wf_prog p = true -> in_known_class p = None ->
   forall f' s c k pc0 g il ic e stk fr frs hs rp he d out o r,
-    entered p f' s c k pc0 g il ic e stk fr frs hs rp he d ->
+    entered gts gvs gns p f' s c k pc0 g il ic e stk fr frs hs rp he d ->
     eval_stmt (eval_fn p f') e s = Some (o, r) ->
-    exists cf, steps (compile_prog cfg_today p) (inl (mkS g pc0 stk (fr :: frs) hs rp he out)) cf /\
+    exists cf, steps gts gvs gns (compile_prog Kg p) (inl (mkS g pc0 stk (fr :: frs) hs rp he out)) cf /\
                handlers_after c r hs cf.
-Proof. exact handler_stack_balanced. Qed.
+Proof. exact (handler_stack_balanced gts gvs gns). Qed.
 
 Theorem C08_left_try_never_intercepts :
   forall p, wf_prog p = true -> in_known_class p = None ->
   forall f' b c0 f c k pc0 g il ic e stk fr frs hs rp he d out o r,
-    entered p f' (Try b c0 f) c k pc0 g il ic e stk fr frs hs rp he d ->
+    entered gts gvs gns p f' (Try b c0 f) c k pc0 g il ic e stk fr frs hs rp he d ->
     eval_stmt (eval_fn p f') e (Try b c0 f) = Some (o, r) ->
-    exists cf, steps (compile_prog cfg_today p) (inl (mkS g pc0 stk (fr :: frs) hs rp he out)) cf /\
+    exists cf, steps gts gvs gns (compile_prog Kg p) (inl (mkS g pc0 stk (fr :: frs) hs rp he out)) cf /\
                handlers_after c r hs cf.
-Proof. exact left_try_never_intercepts. Qed.
+Proof. exact (left_try_never_intercepts gts gvs gns). Qed.
 
 Theorem C08_finally_exactly_once :
   forall p, wf_prog p = true -> in_known_class p = None ->
   forall f' b c0 f1 c k pc0 g il ic e stk fr frs hs rp he d out o r,
-    entered p f' (Try b c0 (Some f1)) c k pc0 g il ic e stk fr frs hs rp he d ->
+    entered gts gvs gns p f' (Try b c0 (Some f1)) c k pc0 g il ic e stk fr frs hs rp he d ->
     eval_stmt (eval_fn p f') e (Try b c0 (Some f1)) = Some (o, r) ->
     exists o12 r12 o3 r3,
       eval_stmt (eval_fn p f') e (Try b c0 None) = Some (o12, r12) /\
       eval_stmt (eval_fn p f') e f1 = Some (o3, r3) /\
       o = o12 ++ o3 /\ r = fin_outcome r12 r3 /\
-      exists cf, steps (compile_prog cfg_today p) (inl (mkS g pc0 stk (fr :: frs) hs rp he out)) cf /\
-                 post p c g pc0 (csize cfg_today c (Try b c0 (Some f1))) (fin_outcome r12 r3) stk fr frs hs rp he
+      exists cf, steps gts gvs gns (compile_prog Kg p) (inl (mkS g pc0 stk (fr :: frs) hs rp he out)) cf /\
+                 post gts gvs gns p c g pc0 (csize Kg c (Try b c0 (Some f1))) (fin_outcome r12 r3) stk fr frs hs rp he
                       (out ++ o12 ++ o3) cf.
-Proof. exact finally_exactly_once. Qed.
+Proof. exact (finally_exactly_once gts gvs gns). Qed.
 
 Theorem C08_outcome_continues :
   forall p, wf_prog p = true -> in_known_class p = None ->
   forall f' b c0 f1 c k pc0 g il ic e stk fr frs hs rp he d out o12 r12 o3,
-    entered p f' (Try b c0 (Some f1)) c k pc0 g il ic e stk fr frs hs rp he d ->
+    entered gts gvs gns p f' (Try b c0 (Some f1)) c k pc0 g il ic e stk fr frs hs rp he d ->
     eval_stmt (eval_fn p f') e (Try b c0 None) = Some (o12, r12) ->
     eval_stmt (eval_fn p f') e f1 = Some (o3, ONormal) ->
-    exists cf, steps (compile_prog cfg_today p) (inl (mkS g pc0 stk (fr :: frs) hs rp he out)) cf /\
-               post p c g pc0 (csize cfg_today c (Try b c0 (Some f1))) r12 stk fr frs hs rp he (out ++ o12 ++ o3) cf.
-Proof. exact outcome_continues. Qed.
+    exists cf, steps gts gvs gns (compile_prog Kg p) (inl (mkS g pc0 stk (fr :: frs) hs rp he out)) cf /\
+               post gts gvs gns p c g pc0 (csize Kg c (Try b c0 (Some f1))) r12 stk fr frs hs rp he (out ++ o12 ++ o3) cf.
+Proof. exact (outcome_continues gts gvs gns). Qed.
 
 Theorem C08_catch_does_not_disable_outer :
   forall p, wf_prog p = true -> in_known_class p = None ->
   forall f' b c1 c k pc0 g il ic e stk fr frs hs rp he d out o1 v o2,
-    entered p f' (Try b (Some c1) None) c k pc0 g il ic e stk fr frs hs rp he d ->
+    entered gts gvs gns p f' (Try b (Some c1) None) c k pc0 g il ic e stk fr frs hs rp he d ->
     eval_stmt (eval_fn p f') e b = Some (o1, OExc v) ->
     eval_stmt (eval_fn p f') {| e_exc := v; e_iter := e_iter e |} c1 = Some (o2, ONormal) ->
-    steps (compile_prog cfg_today p) (inl (mkS g pc0 stk (fr :: frs) hs rp he out))
-          (inl (mkS g (pc0 + csize cfg_today c (Try b (Some c1) None)) stk (fr :: frs) hs rp he (out ++ o1 ++ o2))).
-Proof. exact catch_does_not_disable_outer. Qed.
+    steps gts gvs gns (compile_prog Kg p) (inl (mkS g pc0 stk (fr :: frs) hs rp he out))
+          (inl (mkS g (pc0 + csize Kg c (Try b (Some c1) None)) stk (fr :: frs) hs rp he (out ++ o1 ++ o2))).
+Proof. exact (catch_does_not_disable_outer gts gvs gns). Qed.
 
 (* --- the hypotheses are satisfiable --- *)
 Theorem C08_example : wf_prog ex_prog = true /\ in_known_class ex_prog = None /\
@@ -137,6 +143,10 @@ Theorem C08_catch_pops_outer_refuted_old : refutes cfg_old_catch_pops wit_catch_
 Proof. exact catch_pops_outer_refuted_old. Qed.
 Theorem C08_break_in_try_refuted_old : refutes cfg_old_break wit_break_in_try None.
 Proof. exact break_in_try_refuted_old. Qed.
+(* an unwind_stack that no longer derives the flag needs it set at EVERY raise site (three: throw, VM failure, native
+   failure); with the native site left out a native failure under a finally-only handler is dropped *)
+Theorem C08_native_site_needs_flag_refuted : refutes cfg_flag_at_sites_but_native wit_native_finally None.
+Proof. exact native_site_needs_flag_refuted. Qed.
 
 (* --- from the bytecode verifier: in verified code with a unique frame-local handler stack per pc, the run-time
    handler stack (and height) of the frame at a pc is the static one --- *)
@@ -171,4 +181,5 @@ Print Assumptions C08_abrupt_exit_from_finally_refuted.
 Print Assumptions C08_pending_return_survives_throw_refuted.
 Print Assumptions C08_catch_pops_outer_refuted_old.
 Print Assumptions C08_break_in_try_refuted_old.
+Print Assumptions C08_native_site_needs_flag_refuted.
 Print Assumptions C08_handler_static_dynamic.
